@@ -287,7 +287,7 @@ func runLinkedSetOrder[T comparable](c *core.Ctx, d *Dom[T]) {
 		}
 		switch r.Pick(50, 30, 8, btoi(len(d.Alpha) < 200)*2) {
 		case 0:
-			k := varCount(r)
+			k := varCountBig(r) // (occasionally 63..1025 values: batch paths)
 			vs := make([]T, k)
 			for i := range vs {
 				if i > 0 && r.Chance(1, 3) {
@@ -300,7 +300,7 @@ func runLinkedSetOrder[T comparable](c *core.Ctx, d *Dom[T]) {
 			s.Add(vs...)
 			add(vs)
 		case 1:
-			k := varCount(r)
+			k := varCountBig(r)
 			vs := make([]T, k)
 			for i := range vs {
 				if len(order) > 0 && r.Chance(2, 3) {
@@ -344,6 +344,11 @@ func runLinkedSetOrder[T comparable](c *core.Ctx, d *Dom[T]) {
 }
 
 func runC09(c *core.Ctx) {
+	if c.Index < 4 {
+		c.Only = func(kind string) bool { return kind == "order" || kind == "keys" || kind == "size" }
+		runHugeHash(c, []int{1, 4}[c.Index%2]) // insertion order beyond 4096 entries, across mass removal and Clear
+		return
+	}
 	c.SetGaps((c.Index/4)%2 == 1)
 	if c.Index%97 == 11 { // hundreds of live keys: removal positions deep inside a long order list
 		c.Count("linked:wide-cases", 1)
@@ -393,6 +398,7 @@ func init() {
 			f.atLeast("linked:remove-present", 10000)
 			f.atLeast("linked:reinsert", 5000)
 			f.atLeast("linked:float-cases", 500)
+			f.atLeast("obs:huge-hash-cases", 4)
 			return f.missing
 		},
 		Files: []string{"maps/linkedhashmap/linkedhashmap.go", "maps/linkedhashmap/iterator.go", "maps/linkedhashmap/serialization.go", "sets/linkedhashset/linkedhashset.go", "sets/linkedhashset/iterator.go"},
